@@ -117,36 +117,55 @@ def rule_sorts(ctx):
     b = printers.display_impl(fx, "tptp", "SymbolicTerm")
     t = printers.token_table(printers.evaluate(fx, b).value) or {}
     ctx.add("TAB-SIB", "occurrence:symbol", t.get("SymbolicTerm::Symbol(_)") == "{}", ctx.site(b), "a symbolic constant is printed as its bare name (declared as `name: symbol`)")
-    # binder types
+    # binder types: what the quantification printer writes for a variable of each sort, first or later in the list
     b = printers.display_impl(fx, "tptp", "Quantification")
-    p = printers.evaluate(fx, b)
-    got = {}
-    for conds, loops, item in p.out:
-        if item[0] == "write" and item[1].startswith("{}: "):
-            for c, pol in conds:
-                if c[0] == "arm" and c[2].startswith("Sort::"):
-                    got[c[2]] = item[1][4:]
-    ctx.add("TAB-SIB", "binder-types", got == TYPE, ctx.site(b), "binder types per sort: %s (reference %s)" % (got, TYPE), construct=got)
-    # every variable of the quantification gets a binder: the binder writes sit in one loop over the whole variable list
     from .. import leaves
-    root = ("place", "self.0.variables")
-    bw = [(loops, item) for conds, loops, item in p.out if item[0] == "write" and item[1].startswith("{}: ")]
-    ok = bool(bw)
-    for loops, item in bw:
-        ok = ok and leaves.over_all(loops, root, item[2]) == leaves.norm((("ctor", "Format", (("0", ("each", root)),)),))
+    T = printers.flat(fx, b, inline=("Sort",))
+    root = leaves.norm(("place", "self.0.variables"))
+    V, IDX = ("each", root), ("idx", root)
+    SORT_OF_V = leaves.norm(("fieldof", V, "sort"))
+    hole_v = ("hole", "{}", ("ctor", "Format", (("0", V),)))
+    hole_q = ("hole", "{}", ("ctor", "Format", (("0", leaves.norm(("place", "self.0.quantifier"))),)))
+
+    def written(sort, k):
+        def decide(c):
+            if c[:1] == ("arm",) and c[1] == SORT_OF_V:
+                return c[2] == sort
+            return sym.decide_bool(leaves.replace(c, {IDX: ("lit", k)}))
+        try:
+            return T.under(decide)
+        except printers.Undecided as e:
+            return [("undecided", [repr(e.args[0])[:200]])]
+    texts = {(s_, k): written(s_, k) for s_ in TYPE for k in (0, 1, 2)}
+    got = {}
+    for s_ in TYPE:
+        inner = [ps for n, ps in texts[(s_, 0)] if n == (root,)]
+        if len(inner) == 1 and len(inner[0]) == 2 and inner[0][0] == hole_v and isinstance(inner[0][1], str) and inner[0][1].startswith(": "):
+            got[s_] = inner[0][1][2:]
+    ctx.add("TAB-SIB", "binder-types", got == TYPE, ctx.site(b), "binder types per sort: %s (reference %s)" % (got, TYPE), construct=got)
+    # every variable of the quantification gets a binder: the binder is written in one loop over the whole variable list
+    nests = {n for (s_, k), segs in texts.items() for n, ps in segs if hole_v in ps}
+    others = {repr(p_)[:160] for segs in texts.values() for n, ps in segs for p_ in ps if not isinstance(p_, str) and p_ not in (hole_v, hole_q)}
+    ok = nests == {(root,)} and not others and all(sum(ps.count(hole_v) for _, ps in segs) == 1 for segs in texts.values())
     ctx.add("TAB-MAP", "binder-every-variable", ok, ctx.site(b),
             "the binder list is written by one loop over all of `variables` (no filter / dedup / skip: two variables of one name and different sorts are two binders): %s"
-            % sorted({str(l)[:160] for l, _ in bw}))
-    lits = [item[1] for _, _, item in p.out if item[0] == "write"]
-    ctx.add("TAB-MAP", "binder-syntax", lits[0] == "{}[" and lits[-1] == "]" and ", " in lits, ctx.site(b), "quantifier syntax Q[v: t, ...] : pieces %s" % lits)
+            % sorted(str(n)[:160] for n in nests | others))
+    want = {(s_, k): [((), [hole_q, "["]), ((root,), ([", "] if k > 0 else []) + [hole_v, ": " + TYPE[s_]]), ((), ["]"])] for s_ in TYPE for k in (0, 1, 2)}
+    bad = sorted("%s #%d: %s" % (s_, k, texts[(s_, k)]) for (s_, k) in texts if texts[(s_, k)] != want[(s_, k)])
+    ctx.add("TAB-MAP", "binder-syntax", not bad, ctx.site(b), "quantifier syntax Q[v: t, ...]: `Q[`, then per variable `v: t` with `, ` before all but the first, then `]`", construct=bad[:3] or None)
     # declarations in Display for Problem
     pb = fx.fn("fmt", impl_self="verifying::problem::Problem", impl_trait="std::fmt::Display")
-    pp = printers.evaluate(fx, pb)
-    decl = [item for _, _, item in pp.out if item[0] == "write" and item[1].startswith("tff(type_function_constant")]
-    ok = len(decl) == 1 and decl[0][1] == "tff(type_function_constant_{}, type, {}: {}).\n" and decl[0][2][1][:2] == ("ctor", "Format")
-    if ok:
-        m = decl[0][2][2]
-        ok = m[0] == "match" and {a[0]: a[1][1] for a in m[2]} == TYPE
+    PT = printers.flat(fx, pb, inline=("Sort",))
+    FCS = leaves.norm(("call", "Problem::function_constants", (("place", "self"),)))
+    ok = True
+    for s_ in TYPE:
+        try:
+            segs = PT.only(lambda n_, ps_: n_ == (FCS,)).under(lambda c: (c[2] == s_) if (c[:1] == ("arm",) and c[1] == ("fieldof", ("each", FCS), "sort")) else sym.decide_bool(c))
+        except printers.Undecided:
+            ok = False
+            break
+        decl = [ps for n, ps in segs if ps and isinstance(ps[0], str) and ps[0].startswith("tff(type_function_constant")]
+        ok = ok and decl == [["tff(type_function_constant_", ("hole", "{}", ("idx", FCS)), ", type, ", ("hole", "{}", ("ctor", "Format", (("0", ("each", FCS)),))), ": %s).\n" % TYPE[s_]]]
     ctx.add("TAB-SIB", "declaration:function-constant", ok, ctx.site(pb), "a placeholder is declared under the same suffixed name the printer uses, with the type of its sort")
 
 
